@@ -13,7 +13,7 @@ package main
 //               observation (tied to the model of Sqlite/ExportFault.v): number of reads, outcome per k
 //   CLI       : $ATLAS_BIN with the URL scheme sqlitefault:// (cmd/atlas/verif_sqlfault.go),
 //               VERIF_SQL_LOG for the statement list, VERIF_SQL_FAULT='.@k' for the k-th statement;
-//               HCL and {{ sql . }} outputs.
+//               HCL (default output), {{ sql . }} and {{ json . }}.
 
 import (
 	"context"
@@ -446,22 +446,20 @@ func runFault(w *out.W, tier string) {
 				continue
 			}
 			seen[v.msg] = true
-			cause := "fault"
-			if v.class == "lock-export-differs" {
-				cause = "lock"
-			}
-			w.Violation(c.id, cause, fmt.Sprintf("symptom=%s how=inproc %s ;; sql=%s", v.class, v.msg, short(c.script, 500)))
+			// since fix C03-rows-err a locked inspection is held to the same contract as an injected
+			// fault: an error, or the undisturbed export
+			w.Violation(c.id, "fault", fmt.Sprintf("symptom=%s how=inproc %s ;; sql=%s", v.class, v.msg, short(c.script, 500)))
 		}
 	}
 	// ---- CLI: the fixed databases (+ generated ones in the thorough tier), HCL and SQL
 	var cl []*cliFault
 	for i, sc := range faultScripts {
-		for fi, f := range []string{"{{ sql . }}", "{{ json . }}"} {
+		for fi, f := range []string{"", "{{ sql . }}", "{{ json . }}"} {
 			cl = append(cl, &cliFault{id: fmt.Sprintf("cf%02d_%d", i, fi), script: sc, format: f})
 		}
 	}
 	for i := 0; i < ncli && i < len(gens); i++ {
-		for fi, f := range []string{"{{ sql . }}", "{{ json . }}"} {
+		for fi, f := range []string{"", "{{ sql . }}", "{{ json . }}"} {
 			cl = append(cl, &cliFault{id: fmt.Sprintf("cfg%03d_%d", i, fi), script: gens[i].script, format: f})
 		}
 	}
